@@ -182,7 +182,10 @@ pub fn run_engine(job: &EngineJob, work: &std::path::Path) -> EngineRun {
     for p in 0..n {
         let ov = job.overrides.iter().find(|o| o.party == p);
         let tmp = if job.tmp.get(p).copied().unwrap_or(false) {
-            let d = work.join(format!("tmp-{}-{}-p{}", std::process::id(), sanitize(&job.id), p));
+            // (unique per run even if two jobs carry the same id)
+            static RUN_NO: std::sync::atomic::AtomicUsize = std::sync::atomic::AtomicUsize::new(0);
+            let k = RUN_NO.fetch_add(1, std::sync::atomic::Ordering::Relaxed);
+            let d = work.join(format!("tmp-{}-{}-{}-p{}", std::process::id(), k, sanitize(&job.id), p));
             std::fs::create_dir_all(&d).expect("create tmp dir");
             tmp_dirs.push(d.clone());
             Some(d)
